@@ -1,4 +1,5 @@
 CONSTANTS
+  AnyOrder = FALSE
   MinItems = 5
   NC = 2
   L = 8
